@@ -11,7 +11,7 @@ use serde_json::{json, Value};
 pub static ENGINE: Engine = Engine {
     prop: "C17",
     level: "exploration",
-    rule: "the real sudoku_gen binary. r=1: every puzzle text <= 3 characters over {1 . x space newline}. r=2: the empty puzzle and EVERY pattern of <= 2 givens (all cells x all digits, incl. contradictory pairs), each in five layouts (one line, 4 lines, spaces between cells, Windows line endings, tabs) with blanks spelled . x _, plus short and over-long texts: the models of the emitted formula, enumerated exhaustively by the constraint-DFS enumerator over its 64 variables, must be in bijection with the valid completed 4x4 grids (brute force: 288) that keep the givens, each model setting exactly one _c_is_d per cell. r=3: the multiset of `[..] = 1` conjuncts equals the independently generated family {cell, row x digit, column x digit, box x digit}, hint literals equal the givens, three valid grids satisfy the formula and ALL their single-cell changes and in-row swaps are rejected. distinct = distinct (root, puzzle text)",
+    rule: "the real sudoku_gen binary. r=1: every puzzle text <= 3 characters over {1 . x space newline}. r=2: the empty puzzle and EVERY pattern of <= 2 givens (all cells x all digits, incl. contradictory pairs), each in five layouts (one line, 4 lines, spaces between cells, Windows line endings, tabs) with blanks spelled . x _, plus short and over-long texts: the models of the emitted formula, enumerated exhaustively by the constraint-DFS enumerator over its 64 variables, must be in bijection with the valid completed 4x4 grids (brute force: 288) that keep the givens, each model setting exactly one _c_is_d per cell. r=3 (24 single-given puzzles at the last rows, the completed grid, classic puzzles), r=4 and r=5: the multiset of `[..] = 1` conjuncts equals the independently generated family {cell, row x digit, column x digit, box x digit}, hint literals equal the givens, three valid grids satisfy the formula and ALL their single-cell changes and in-row swaps are rejected. distinct = distinct (root, puzzle text)",
     assumptions: &["reference semantics (harness/src/puzzles.rs); givens are digits 1..r^2, every other non-whitespace character is a blank", "exact model sets for r <= 2; structural exactness plus near-miss rejection for r = 3"],
     max_shards: 64,
     run,
@@ -104,11 +104,14 @@ fn check_exact(ctx: &mut Ctx, r: usize, puzzle: &str, grids: &[Vec<u8>]) {
 }
 
 fn check_r3(ctx: &mut Ctx, puzzle: &str) {
-    let r = 3;
+    check_structure(ctx, 3, puzzle)
+}
+
+fn check_structure(ctx: &mut Ctx, r: usize, puzzle: &str) {
     ctx.begin_case(|| case(r, puzzle));
     ctx.count("evaluations", 1);
     ctx.distinct(&(r, puzzle));
-    let key = format!("{TAG} r=3 puzzle {:?}", puzzle);
+    let key = format!("{TAG} r={r} puzzle {:?}", puzzle);
     let text = match generate(r, puzzle) {
         Ok(t) => t,
         Err(e) => {
@@ -123,7 +126,7 @@ fn check_r3(ctx: &mut Ctx, puzzle: &str) {
             return;
         }
     };
-    let sq = 9;
+    let sq = r * r;
     let mut lists: Vec<Vec<String>> = vec![];
     let mut hints: Vec<String> = vec![];
     let mut other = vec![];
@@ -149,10 +152,10 @@ fn check_r3(ctx: &mut Ctx, puzzle: &str) {
             want.push((0..sq).map(|j| cell_var(j * sq + i, d)).collect());
         }
     }
-    for bi in 0..3 {
-        for bj in 0..3 {
+    for bi in 0..r {
+        for bj in 0..r {
             for d in 1..=sq {
-                want.push((0..sq).map(|l| cell_var((bi * 3 + l / 3) * sq + bj * 3 + l % 3, d)).collect());
+                want.push((0..sq).map(|l| cell_var((bi * r + l / r) * sq + bj * r + l % r, d)).collect());
             }
         }
     }
@@ -183,7 +186,7 @@ fn check_r3(ctx: &mut Ctx, puzzle: &str) {
     }
     // semantic spot-exhaustion on the hint-free part: valid grids accepted, every
     // single-cell change and every in-row swap rejected
-    if gv.iter().all(Option::is_none) {
+    if r == 3 && gv.iter().all(Option::is_none) {
         let base: Vec<u8> = (0..81).map(|i| (((i / 9) * 3 + (i / 9) / 3 + i % 9) % 9 + 1) as u8).collect();
         let grids: Vec<Vec<u8>> = vec![
             base.clone(),
@@ -298,10 +301,32 @@ fn run(ctx: &mut Ctx) {
         }
     }
     // r = 3
-    for p in ["", "53..7....6..195....98....6.8...6...34..8.3..17...2...6.6....28....419..5....8..79", "123456789", ".\n.\n9"] {
+    let full9 = "534678912672195348198342567859761423426853791713924856961537284287419635345286179";
+    let mut r3: Vec<String> = vec!["".into(), "53..7....6..195....98....6.8...6...34..8.3..17...2...6.6....28....419..5....8..79".into(), "123456789".into(), ".\n.\n9".into(), full9.into()];
+    // a single given at every cell of the last two rows and at cells 0, 40; every digit once
+    for c in [0usize, 40, 63, 64, 71, 72, 79, 80] {
+        for d in [1usize, 5, 9] {
+            let mut p = vec!['.'; 81];
+            p[c] = char::from_digit(d as u32, 10).unwrap_or('1');
+            r3.push(p.iter().collect());
+        }
+    }
+    // the completed grid spread over lines with spaces, and with all but the last row blanked
+    r3.push(full9.as_bytes().chunks(9).map(|c| c.iter().map(|b| format!("{} ", *b as char)).collect::<String>()).collect::<Vec<_>>().join("\n"));
+    r3.push(format!("{}{}", ".".repeat(72), &full9[72..]));
+    for p in &r3 {
         idx += 1;
         if ctx.mine(idx) {
             check_r3(ctx, p);
+        }
+    }
+    // r = 4 and r = 5: structure of the hint-free output and of one hinted puzzle
+    for r in [4usize, 5] {
+        for p in ["".to_string(), format!("{}{}", ".".repeat(r * r * r * r - 3), "123")] {
+            idx += 1;
+            if ctx.mine(idx) {
+                check_structure(ctx, r, &p);
+            }
         }
     }
 }
@@ -312,6 +337,7 @@ fn replay(ctx: &mut Ctx, c: &Value) {
     match r {
         1 => check_exact(ctx, 1, p, &[vec![1u8]]),
         2 => check_exact(ctx, 2, p, &sudoku4_grids()),
-        _ => check_r3(ctx, p),
+        3 => check_r3(ctx, p),
+        _ => check_structure(ctx, r, p),
     }
 }
